@@ -283,6 +283,14 @@ def rule_A5(tree: Tree) -> RuleResult:
         cfg = cfg_of(f.node)
         aead_nodes = [n for n in cfg.nodes if n.kind == "stmt" and any(isinstance(c, ast.Call) and isinstance(c.func, ast.Attribute) and c.func.attr == "decrypt"
                                                                        and dotted(c.func.value) not in ("self", "self.decryptor") for c in ast.walk(n.ast))]
+        if len(aead_nodes) > 1:
+            # a second authenticated-decryption attempt (retry with another sequence number / key) re-synchronises after a loss: what follows a gap is then
+            # exported although the record stream is no longer the one the peer sent in order
+            r.instances += 1
+            r.ob(False, Finding("A5", f"decryptor:Decryptor.{name}:single-aead-attempt",
+                                f"Decryptor.{name} calls the AEAD {len(aead_nodes)} times: each record is opened exactly once, with the direction's current sequence number; "
+                                f"a retry with a guessed sequence number changes the per-direction state on a failure", m.line(aead_nodes[1].ast)))
+            continue
         if len(aead_nodes) != 1:
             raise AnalysisError(f"Decryptor.{name}: expected one AEAD decrypt call, found {len(aead_nodes)}")
         D = aead_nodes[0]
